@@ -803,7 +803,12 @@ impl TypeChecker {
                         typed_ast::BinaryOperator::Equal | typed_ast::BinaryOperator::NotEqual => {
                             if lhs_type.is_closed() && rhs_type.is_closed() {
                                 if lhs_type.is_dtype() && rhs_type.is_dtype() {
-                                    let _ = get_type_and_assert_equal_dtypes()?;
+                                    // Operands of the same type can always be compared. In particular,
+                                    // their type parameters do not have to be dimensions:
+                                    // `fn eq<A>(x: A, y: A) -> Bool = x == y`.
+                                    if lhs_type != rhs_type {
+                                        let _ = get_type_and_assert_equal_dtypes()?;
+                                    }
                                 } else if lhs_type != rhs_type
                                     || lhs_type.is_fn_type()
                                     || rhs_type.is_fn_type()
